@@ -572,16 +572,53 @@ Proof.
   intros H. pose proof int_of_str_small_table as T. rewrite forallb_forall in T. specialize (T n ltac:(apply in_seq; lia)).
   destruct (int_of_str (str_of_int (Z.of_nat n))) as [z|]; [|discriminate]. apply Z.eqb_eq in T. subst z. reflexivity.
 Qed.
-Lemma ftable_small f : (length (ftable f) < 512)%nat.
-Proof. destruct f; vm_compute; lia. Qed.
-Lemma tbl_obj f : assocZ (u8 (b 92) * 256 + u8 (b (fcode f))) BI_OPCODES
-  = Some (2, "BiOpcode", match f with FSound => "SoundPropertiesOpcode" | FSprite => "SpritePropertiesOpcode" | FCast => "CastPropertiesOpcode" | FVideo => "VideoPropertiesOpcode" end, "").
+Lemma fpid_small f pid : fpid_ok f pid -> (pid < 512)%nat.
+Proof. destruct f; cbn [fpid_ok ftable]; intros H; try (subst pid; lia); revert H; vm_compute; lia. Qed.
+Definition obj_proc (f : ofam) : string :=
+  match f with
+  | FSound => "SoundPropertiesOpcode" | FSprite => "SpritePropertiesOpcode" | FCast => "CastPropertiesOpcode" | FVideo => "VideoPropertiesOpcode"
+  | FField => "FieldPropertiesOpcode" | FLast => "SpecialPropertiesOpcode" | FNumber => "NumberOfElementsOpcode"
+  | FMenuName | FMenuItems => "NameOfCastElementsOpcode"
+  end.
+Definition obj_opk (f : ofam) : opclass :=
+  match f with
+  | FSound => OSoundProps | FSprite => OSpriteProps | FCast => OCastProps | FVideo => OVideoProps
+  | FField => OFieldProps | FLast => OSpecialProps | FNumber => ONumberOfElements | FMenuName | FMenuItems => ONameOfCastElements
+  end.
+Lemma tbl_obj f : assocZ (u8 (b 92) * 256 + u8 (b (fcode f))) BI_OPCODES = Some (2, "BiOpcode", obj_proc f, "").
 Proof. destruct f; vm_compute; reflexivity. Qed.
+
+(* the last step: the two-byte opcode pops the property number and the operand and pushes the tree of the form *)
+Lemma obj_process f pid (m : mstate) po o : fpid_ok f pid ->
+  m_stack m = Leaf KConst (str_of_int (Z.of_nat pid)) po true :: o :: List.tl (List.tl (m_stack m)) ->
+  forall st, List.tl (List.tl (m_stack m)) = st ->
+  forall pq, process (obj_opk f) 0 0 pq m = Ok (push (with_stack m st) (obj_node f pid pq o)).
+Proof.
+  intros Hp Hst st Est pq. pose proof (fpid_small f pid Hp) as Hs.
+  assert (Epop1 : pop m = Ok (Leaf KConst (str_of_int (Z.of_nat pid)) po true, with_stack m (o :: st))).
+  { unfold pop. rewrite Hst, Est. reflexivity. }
+  assert (Epop2 : pop (with_stack m (o :: st)) = Ok (o, with_stack m st)).
+  { unfold pop, with_stack. cbn [m_stack]. destruct m; reflexivity. }
+  assert (Eint : int_name (Leaf KConst (str_of_int (Z.of_nat pid)) po true) = Ok (Z.of_nat pid)).
+  { unfold int_name. cbn [name_of]. rewrite int_of_str_small by lia. reflexivity. }
+  destruct f; cbn [obj_opk process fpid_ok ftable] in *.
+  - unfold obj_prop. rewrite Epop1. cbn [bind]. rewrite Eint. cbn [bind]. rewrite Epop2. cbn [bind]. rewrite nth_name_ok by exact Hp. reflexivity.
+  - unfold obj_prop. rewrite Epop1. cbn [bind]. rewrite Eint. cbn [bind]. rewrite Epop2. cbn [bind]. rewrite nth_name_ok by exact Hp. reflexivity.
+  - unfold obj_prop. rewrite Epop1. cbn [bind]. rewrite Eint. cbn [bind]. rewrite Epop2. cbn [bind]. rewrite nth_name_ok by exact Hp. reflexivity.
+  - unfold obj_prop. rewrite Epop1. cbn [bind]. rewrite Eint. cbn [bind]. rewrite Epop2. cbn [bind]. rewrite nth_name_ok by exact Hp. reflexivity.
+  - rewrite Epop1. cbn [bind]. rewrite Eint. cbn [bind]. rewrite Epop2. cbn [bind]. rewrite nth_name_ok by exact Hp. reflexivity.
+  - unfold special_props. rewrite Epop1. cbn [bind]. rewrite Eint. cbn [bind].
+    destruct (Z.ltb_spec (Z.of_nat pid) 6); [lia|]. destruct (Z.ltb_spec (Z.of_nat pid) 12); [lia|].
+    replace (Z.of_nat pid - 11) with (Z.of_nat (pid - 11)) by lia. rewrite nth_name_ok by lia. cbn [bind]. rewrite Epop2. reflexivity.
+  - rewrite Epop1. cbn [bind]. rewrite Eint. cbn [bind]. rewrite nth_name_ok by exact Hp. cbn [bind]. rewrite Epop2. reflexivity.
+  - subst pid. rewrite Epop1. cbn [bind]. rewrite Eint. cbn [bind]. rewrite Epop2. reflexivity.
+  - subst pid. rewrite Epop1. cbn [bind]. rewrite Eint. cbn [bind]. rewrite Epop2. reflexivity.
+Qed.
 
 Lemma exec_obj en f pid x : exec_spec en x -> wf_e en (EObj f pid x) -> exec_spec en (EObj f pid x).
 Proof.
   intros IHx [Hpid Hx] d off len a fuel r m Hag Hc Hoff Hlen.
-  pose proof (ftable_small f) as Hsm.
+  pose proof (fpid_small f pid Hpid) as Hsm.
   cbn [compile_e ninstr] in *. rewrite !zlen_app in *. change (zlen [b 92; b (fcode f)]) with 2 in *.
   apply code_at_app in Hc. destruct Hc as [Hcx Hc]. apply code_at_app in Hc. destruct Hc as [Hci Hco].
   pose proof (zlen_nonneg (compile_e x)). pose proof (zlen_nonneg (compile_int (Z.of_nat pid))).
@@ -593,16 +630,13 @@ Proof.
   cbn [ninstr compile_e] in E2. rewrite E2.
   set (m2 := after_e en a1 (EInt (Z.of_nat pid)) m1). set (a2 := a1 + zlen (compile_int (Z.of_nat pid))) in *.
   assert (Hs : step d a2 r2 m2 = Ok (a2 + 2, r2, after_e en a (EObj f pid x) m)).
-  { eapply step_bi with (proc0 := "SoundPropertiesOpcode") (attr0 := "")
-                        (oc := match f with FSound => OSoundProps | FSprite => OSpriteProps | FCast => OCastProps | FVideo => OVideoProps end);
+  { eapply step_bi with (proc0 := "SoundPropertiesOpcode") (attr0 := "") (oc := obj_opk f);
       [exact Hco | reflexivity | apply tbl_obj | destruct f; reflexivity |].
-    assert (E : obj_prop m2 a2 (fclass f) (ftable f) = Ok (after_e en a (EObj f pid x) m)).
-    { unfold obj_prop, pop. subst m2. rewrite after_e_stack. cbn [bind reify_e]. unfold int_name. cbn [name_of].
-      rewrite int_of_str_small by lia. cbn [of_option bind]. unfold with_stack at 1. cbn [m_stack].
-      subst m1. rewrite after_e_stack. cbn [bind]. rewrite nth_name_ok by exact Hpid. cbn [bind]. f_equal;
-        try (apply mstate_eq; [ | | unfold push, with_stack; cbn [m_fn]; rewrite !after_e_globals; cbn [globals_e add_globals fold_left]; reflexivity | .. ];
-             destruct m as [st [? ? ? ? ? ? ?] cx]; reflexivity). }
-    destruct f; cbn [process fclass ftable] in *; exact E. }
+    rewrite (obj_process f pid m2 a1 (reify_e en a x) Hpid) with (st := m_stack m).
+    - f_equal; try (apply mstate_eq; [ | | unfold push, with_stack; cbn [m_fn]; subst m2 m1; rewrite !after_e_globals; cbn [globals_e]; reflexivity | .. ];
+        subst m2 m1 a2 a1; destruct m as [st [? ? ? ? ? ? ?] cx]; reflexivity).
+    - subst m2 m1. rewrite !after_e_stack. reflexivity.
+    - subst m2 m1. rewrite !after_e_stack. reflexivity. }
   exists r2. cbn [Nat.add]. erewrite run_ops_step; [| subst a2 a1; lia | exact Hs]. f_equal. subst a2 a1. lia.
 Qed.
 
